@@ -225,6 +225,32 @@ impl<'a> Read for ShortReader<'a> {
     }
 }
 
+/// A reader that fails with `ErrorKind::Interrupted` (the retryable kind) before handing out data,
+/// at the first call and then at every `every`-th call, and otherwise gives short counts.
+pub struct InterruptingReader<'a> {
+    inner: ShortReader<'a>,
+    calls: u64,
+    every: u64,
+    pending: bool,
+}
+
+impl<'a> InterruptingReader<'a> {
+    pub fn new(data: &'a [u8], max: usize, seed: u64, every: u64) -> Self {
+        InterruptingReader { inner: ShortReader::new(data, max, seed), calls: 0, every: every.max(2), pending: true }
+    }
+}
+
+impl<'a> Read for InterruptingReader<'a> {
+    fn read(&mut self, buf: &mut [u8]) -> io::Result<usize> {
+        self.calls += 1;
+        if self.pending || self.calls % self.every == 0 {
+            self.pending = false;
+            return Err(io::Error::new(io::ErrorKind::Interrupted, "interrupted, try again"));
+        }
+        self.inner.read(buf)
+    }
+}
+
 // ---------------------------------------------------------------------------
 // Sinks
 
